@@ -105,6 +105,32 @@ PROPS["C08"] = dict(
     assumptions=ASSUME_COMMON,
 )
 
+PROPS["C07"] = dict(
+    units=[dict(name="c07", src="props/c07.cpp", fuzz=dict(seconds=120))],
+    rule="6/8 of the cases: chain of 1..50 vegas_refine_pdf calls (1..4 dims, 2..200 bins, alpha in [0,3], start grid "
+         "uniform / user (ties, 1e-12 wide bins) / power law / adapted; per-dimension data all-zero, single spike, two "
+         "spikes, wide-range reals, denormals, equal, log-uniform over up to the whole exponent range, smooth peak); 1/8: "
+         "forced canonical numbers (0, 1, largest below 1, min, denorm_min, every b/bins +-1 ulp, random) through "
+         "vegas_icdf and a scripted-engine vegas_iteration; 1/8: real hep::vegas runs (2..8 iterations, four peaked "
+         "families, zero-call iterations); non-trivial: a refinement judged by the model moved the grid in a chain >= 2, "
+         "a non-uniform grid for sampling, a run whose grid changed; distinct = distinct description",
+    quick=dict(shards=8, cases=2500),
+    thorough=dict(shards=16, cases=120000),
+    floors={"zero-data-dimension": 0.1, "chain>=2": 0.2, "non-uniform-start": 0.3, "sampling-level": 0.05,
+            "run-level": 0.05, "run-zero-iteration": 0.002},
+    level_text="generated refinement chains, forced canonical numbers and real runs; partition invariant after every "
+               "step (first 0, last 1, finite, non-decreasing), all-zero data leave a dimension bit-identical, and a "
+               "long-double model of smoothing / damping: the cumulative importance at every new boundary k must be "
+               "k x mean within 8 eps (bins (mean + max) + conditioning of the touching old bins); every sampled "
+               "point inside its reported bin with weight prod(bins x width) within 4 d eps; exploration",
+    level_note="trusted: the long double model (for T = long double an independent computation of equal precision); "
+               "classes judged by the invariants only: heavy zero-width old bin at the boundary, smoothed ratio "
+               "below the smallest normal number of T, denormal-scale data; data whose smoothing overflows T are the "
+               "known finding sig=C07:smoothed-sum-overflows and are scaled into range (counted as excluded_known)",
+    technique="rapidcheck + libFuzzer over choice tapes; reference model in F-space + invariants over refinement chains, scripted-engine sampling",
+    assumptions=ASSUME_COMMON,
+)
+
 NOT_APPLICABLE = {}
 
 ENGINES = [
